@@ -6,6 +6,7 @@ import (
 	"fmt"
 	"os"
 	"runtime/debug"
+	"time"
 )
 
 // A handler runs one case against the real code and returns the observation.
@@ -26,7 +27,14 @@ func workerMain() int {
 	for {
 		line, err := in.ReadBytes('\n')
 		if len(line) > 1 {
+			n0 := lexerGoroutines()
 			res := runCase(line)
+			// The tokeniser runs in its own goroutine and may outlive the call that started it. Its last steps belong to
+			// THIS case: wait (bounded) until the goroutines this case started are gone before answering, so that a crash
+			// in them is attributed to the case that caused it and not to whichever case happens to run next.
+			for w := 0; w < 60 && lexerGoroutines() > n0; w++ {
+				time.Sleep(time.Duration(1+w/10) * time.Millisecond)
+			}
 			b, merr := json.Marshal(res)
 			if merr != nil {
 				b, _ = json.Marshal(map[string]interface{}{"id": res["id"], "st": "badobs", "err": merr.Error()})
